@@ -30,7 +30,7 @@ RULE = (
     "changes a flux or coefficient; distinct = (model, history, read order) hash"
 )
 ASSUMPTIONS = ["reference evaluator mon/refmodel.py", "coefficient signs constant across segments (the statement does not define producers under a sign flip)"]
-N = {"quick": 200, "thorough": 4000}
+N = {"quick": 200, "thorough": 12000}
 MIN_NONTRIVIAL = {"quick": 50, "thorough": 800}
 
 
